@@ -384,3 +384,17 @@ func (ch *Chain) SameHeads() error {
 	}
 	return nil
 }
+
+// Archive returns what node i serves for a committed height (certificate with the block re-assembled by the indexer).
+func (ch *Chain) Archive(i int, height uint64) (*lib.QuorumCertificate, lib.ErrorI) {
+	n := ch.Nodes[i]
+	ch.enter(n)
+	return n.C.LoadCertificate(height)
+}
+
+// Block returns the indexed block of node i at a height.
+func (ch *Chain) Block(i int, height uint64) (*lib.BlockResult, lib.ErrorI) {
+	n := ch.Nodes[i]
+	ch.enter(n)
+	return n.C.FSM.LoadBlock(height)
+}
